@@ -266,7 +266,9 @@ impl AdvancePositions {
         let num_opens = positions.len();
 
         // Build IB: set bit at each unique position
-        let ib_num_words = text_len.div_ceil(64);
+        // A node can start exactly at text_len (an empty value at EOF), so allocate one extra
+        // bit beyond text_len, as `CompactEndPositions::try_build` does for end positions.
+        let ib_num_words = (text_len + 1).div_ceil(64);
         let mut ib_words = vec![0u64; ib_num_words];
 
         // Build advance bitmap: set bit when position changes
